@@ -119,3 +119,26 @@ def consume(chk, results, tot, ctx, samples, label):
             samples += r.get("samples", [])[:1]
         for what, detail in r.get("bad", []):
             chk.violation("%s:%s" % (what, str(detail.get("minimised", detail.get("text", "?")))[:200]), detail)
+
+
+def any_value(v):
+    """Engine JSON value -> comparable tuple for ANY value type (DWARF values by identity)."""
+    t = v["t"]
+    if t in ("c", "s", "f"):
+        return zcmp.from_engine(v)
+    if t == "q":
+        return ("q", tuple(any_value(x) for x in v["v"]), v["p"], True)
+    d = {k: (json_freeze(x)) for k, x in v.items() if k not in ("sh",)}
+    return ("x", json_freeze(d), v["p"])
+
+
+def json_freeze(x):
+    if isinstance(x, dict):
+        return tuple(sorted((k, json_freeze(v)) for k, v in x.items()))
+    if isinstance(x, list):
+        return tuple(json_freeze(v) for v in x)
+    return x
+
+
+def eng_results_any(r):
+    return [tuple(any_value(v) for v in s) for s in r["res"]]
